@@ -4,7 +4,8 @@
 //
 // writes the zz_*.go files of the harness packages h<pkg>/ below /verif/c01 (one template per
 // family, every arity 2..9) and helem/e<pkg>/zz_<pkg>_elem.go (the law / definition checks as one generic
-// function over the element type, see elem_tmpl.go). The generated files are kept in the tree; the check itself needs
+// function over the element type, see elem_tmpl.go) and hstatet/zz_statet_fork.go (the arity-indexed
+// combinators as arms of a fork, see fork_tmpl.go). The generated files are kept in the tree; the check itself needs
 // no generation step. Regenerate after changing a template in gen/*_tmpl.go.
 package main
 
@@ -162,6 +163,7 @@ func main() {
 			emit(filepath.Join(dir, "h"+p.P, "zz_"+p.P+"_builders.go"), builderTmpl, p)
 		}
 	}
+	emit(filepath.Join(dir, "hstatet", "zz_statet_fork.go"), forkTmpl, nil)
 	emit(filepath.Join(dir, "hcoll", "zz_iterator_arity.go"), iteratorTmpl, nil)
 	emit(filepath.Join(dir, "htryx", "zz_try_misc.go"), tryMiscTmpl, nil)
 	emit(filepath.Join(dir, "hsmall", "zz_lazy_arity.go"), lazyTmpl, nil)
